@@ -8,7 +8,7 @@ from harness.enc import NONE_I
 RULE = ("(A) MC_BitSeq: every content up to L bits x every (start, stop, step) triple: slicing laws as invariants. "
         "(B) Gen_C01: TLC enumerates all getslice/getitem/mul/add/radd/len/bool/iter calls over contents up to L bits; "
         "each is replayed on all four classes (construction route rotating) and every recorded event is judged by "
-        "Trace.tla. (C) random programs with lengths at byte/word/kilobit boundaries and indices up to +-3*len. "
+        "Trace.tla. (C) random programs with lengths at byte/word/kilobit boundaries and indices up to +-3*len, under msb0 and (mirrored, as C12 defines it) lsb0. "
         "distinct_nontrivial = distinct (op, class, pos, content, arguments, operand kinds+bits, options) with a "
         "non-empty target or operand.")
 
@@ -64,6 +64,9 @@ def run(chk):
     n = 8000 if thorough else 1500
     progs = [drivers.c01_program(rng, lsb0=False, huge=0.03 if thorough else 0.005) for _ in range(n)]
     chk.run_and_validate(progs, 'random')
+    # the same sequence operations with the index mirror of lsb0 mode in force (the mirror itself is C12's subject)
+    progs = [drivers.c01_program(rng, lsb0=True) for _ in range(2000 if thorough else 400)]
+    chk.run_and_validate(progs, 'random-lsb0')
     return chk.finish(rule=RULE, assumptions=[
         'harness/world.py faithfully performs the call named by each event and projects s.bin / pos / len()',
         'TLC evaluates the TLA+ operators correctly; bit contents beyond the enumerated/randomised ones behave alike'])
